@@ -25,6 +25,8 @@ for name in names:
     try:
         subprocess.run(["rsync", "-a", "--exclude", ".git", "/repo/", scratch + "/"], check=True)
         r = subprocess.run(["git", "apply", "--whitespace=nowarn", d + "/patch.diff"], cwd=scratch, capture_output=True, text=True)
+        if r.returncode:   # the tree moved on since the change was written (repairs in /repo): retry with fuzz
+            r = subprocess.run(["patch", "-p1", "-F3", "--no-backup-if-mismatch", "-i", d + "/patch.diff"], cwd=scratch, capture_output=True, text=True)
         if r.returncode:
             print(f"{name}: PATCH DOES NOT APPLY: {r.stderr.strip()[:200]}")
             continue
